@@ -26,6 +26,18 @@ CHECKS = {
  "C20": ("closure monitor: completion answers re-lexed and re-parsed by the server's own lexer/parser; class completion compared with generated workspaces",
          "Exploration, exhaustive over the finite vocabularies: all items offered at 9 fixtures x the lexer's tables, both directions (offered => lexes as that token and starts an accepted statement; lexer-accepted operator => offered); class completion on random workspaces (root + include, arities 0-3, every prefix length, open and closed statements). Eight table defects are listed as known findings because the table is pinned by a snapshot test.",
          "independent name tables spelling -> token kind; candidate operator names = reference list + variants + everything offered", "5/C20"),
+ "C05": ("reference-model monitor: go-to-definition / find-references compared with the use->declaration map of a scope-tracking program generator, llvm-tblgen-audited",
+         "Exploration: quick 1 280 / thorough ~100 000 generated multi-file programs; every recorded use probed at first/middle/last byte, every declaration's reference set compared, one dead use (name used after its construct ended) in every third program, per use-position / declaration-kind / construct coverage floors.",
+         "the generator's symbol table is the language model (audited by llvm-tblgen 14 for acceptance / rejection); ambiguous corners are not generated (DESIGN 5/C05)", "5/C05"),
+ "C13": ("fault-seeding monitor: diagnostics of clean and single-fault generated programs, every sample audited by llvm-tblgen 14",
+         "Exploration / fault enumeration over generated programs: clean programs must have no diagnostic in any file; 12 fault classes (undefined class / multiclass / identifier / include, missing / surplus template argument, incompatible initialiser / let / argument, operator arity, deleted / inserted token, in root and included files) visited round-robin, 1-2 sites per class per program; a diagnostic must overlap the site, earlier included files stay clean.",
+         "only faults that no grammatical continuation can absorb are seeded (deleted ';' or '=', inserted non-token characters); tblgen must accept the clean and reject the faulty sample or it is discarded", "5/C13"),
+ "C18": ("reference-model monitor: document symbols and folding ranges compared with the outline / statement list known by construction",
+         "Exploration: generated programs with declarations nested in foreach/if/let/defset/multiclass, optional parts present and absent; outline tree equality per file (order, kind, name, identifier range, children) and folding ranges one-to-one with statements, exact ends, laminar.",
+         "pasted def names are not generated here (their outline name is not fixed by the statement)", "5/C18"),
+ "C19": ("reference-model monitor: hover signatures / doc comments and inlay hints compared with declarations, comment layout and argument bindings known by construction",
+         "Exploration: hover on every declaration and every correctly resolving use (kind keyword, name, declared type; exactly the adjacent // lines, with blank-line, block-comment and trailing-comment counter-cases); inlay hints over the full file (equality) and over random, cutting and empty sub-ranges (soundness + inside-range).",
+         "hover is only demanded where go-to-definition itself is right (C05 owns resolution); hints on top-level let items are not demanded either way", "5/C19"),
 }
 NOT_YET = "check under construction in this session; not claimed yet"
 
